@@ -38,6 +38,8 @@ INPUTS = [
     ('amb_subword', b'cmd --o=(a "p"|a "q");\n'),
     ('amb_final', b'cmd (a "d1" | a "d2") <UND>;\n'),
     ('empty', b''),
+    ('invalid_utf8', b'cmd a \xff\xfe;\n'),
+    ('non_ascii_error', 'cmd \u00e9\u00e9 "\u017c" (b | ;\n'.encode('utf-8')),
 ]
 
 
@@ -57,10 +59,15 @@ def command_lines(r, quick):
             out.append(dict(shells=sh, dest='out.script', regex='r.dot', dfa=None, usage=usage, version=False))
     out.append(dict(shells=[], dest='-', regex=None, dfa=None, usage=None, version=True))
     out.append(dict(shells=['bash'], dest='out.script', regex='r.dot', dfa=None, usage='file', version=True))
+    # the witnesses of the known finding (Graphviz output aliased with the script destination) on every run
+    out.append(dict(shells=['bash'], dest='existing.script', regex='SAME', dfa=None, usage='file', version=False, pin=True))
+    out.append(dict(shells=['zsh'], dest='-', regex=None, dfa='SAME', usage='file', version=False, pin=True))
     if quick:
-        keep = [c for c in out if c['usage'] != 'file' or c['version']]
+        keep = [c for c in out if c['usage'] != 'file' or c['version'] or c.get('pin')]
         rest = [c for c in out if c not in keep]
-        out = keep + r.sample(rest, 45)
+        one = [c for c in rest if len(c['shells']) == 1]
+        alias = [c for c in one if 'SAME' in (c['regex'], c['dfa'])]
+        out = keep + r.sample(one, 36) + r.sample(alias, 6) + r.sample([c for c in rest if len(c['shells']) != 1], 8)
     return out
 
 
@@ -81,6 +88,10 @@ def build_case(cl, text):
             margs[key] = sexp.quote(p)
     stdin = None
     minput = sexp.quote(text.decode('latin-1'))
+    try:
+        text.decode('utf-8')
+    except UnicodeDecodeError:
+        minput = '-'          # read_to_string fails: the model's input is None, as for a file that is not there
     if cl['usage'] == 'file':
         files['g.usage'] = text
         argv.append('g.usage')
@@ -121,7 +132,7 @@ def run_one(binary, argv, stdin, files):
         shutil.rmtree(d, ignore_errors=True)
 
 
-LOCATED = re.compile(rb'^(?P<path>[^\n:]*):(?P<line>\d+):(?P<col>\d+):(?P<kind>error|warning)(?:: (?P<label>[^\n]*))?\n'
+LOCATED = re.compile(rb'(?P<path>[^\n:]*):(?P<line>\d+):(?P<col>\d+):(?P<kind>error|warning)(?:: (?P<label>[^\n]*))?\n'
                      rb' *\|\n'
                      rb' *(?P<no>\d+) \| (?P<src>[^\n]*)\n'
                      rb' *\| (?P<pad> *)(?P<marks>[\^-]+)(?: (?P<what>[^\n]*))?\n'
@@ -205,7 +216,42 @@ def same_messages(a, b):
     return True
 
 
-def tie(ctx, res, label='main_run_tie'):
+ALIAS_CLASS = 'debug_output_aliases_script_destination'
+
+
+def property_c06(c, b, run):
+    """the sentence of C06 about what the caller sees, judged on the binary's run alone (no model involved):
+    status 0 or 1; 1 -> something on stderr and the script destination as it was before; -> [(what, known class or None)]"""
+    cl = c['cl']
+    out = []
+    if run['rc'] not in (0, 1):
+        return [('C06: exit status %s (stderr %r)' % (run['rc'], run['stderr'][-200:]), None)]
+    if run['rc'] == 1:
+        if not run['stderr'].strip():
+            out.append(('C06: exit status 1 without a diagnostic', None))
+        if cl['shells'] and cl['dest'] != '-':
+            before = b[2].get(cl['dest'])
+            after = run['files'].get(cl['dest'])
+            if before != after:
+                aliased = 'SAME' in (cl['regex'], cl['dfa'])
+                out.append(('C06: exit status 1 but the script destination %s was %s' % (
+                    cl['dest'], 'created' if before is None else 'overwritten'), ALIAS_CLASS if aliased else None))
+        if cl['shells'] and cl['dest'] == '-' and run['stdout'] and not cl['version']:
+            aliased = 'SAME' in (cl['regex'], cl['dfa']) or '-' in (cl['regex'], cl['dfa'])
+            out.append(('C06: exit status 1 but %d bytes were written to the script destination (stdout)' % len(run['stdout']),
+                        ALIAS_CLASS if aliased else None))
+    return out
+
+
+GENERATED = re.compile(rb'(generated by https://github.com/adaszko/complgen) [^\n]*')
+
+
+def unversion(data):
+    """the harness and the binary are two cargo builds: their version stamps may differ (-dirty suffix)"""
+    return GENERATED.sub(rb'\1', data)
+
+
+def tie(ctx, res, extra=(), label='main_run_tie'):
     r = ctx['rng']
     quick = ctx.get('tier') != 'thorough'
     with build.Lock():
@@ -215,10 +261,16 @@ def tie(ctx, res, label='main_run_tie'):
     cls = command_lines(r, quick)
     cases = []
     for name, text in INPUTS:
-        for cl in (cls if not quick else [c for c in cls if r.random() < 0.5 or c['usage'] != 'file']):
+        for cl in (cls if not quick else [c for c in cls if r.random() < 0.5 or c['usage'] != 'file' or c.get('pin')]):
             shell = cl['shells'][0] if len(cl['shells']) == 1 else 'bash'
             t = text.replace(b'@SHELL>', ('@%s>' % shell).encode())
             cases.append(dict(name=name, cl=cl, text=t, shell=shell))
+    # the random inputs of the caller (C06's generators), each under one random command line with one shell option
+    one = [c for c in command_lines(r, False) if len(c['shells']) == 1 and not c['version']]
+    extra = [(k, t) for k, t in extra if len(t) < 4000]
+    for name, text in r.sample(extra, min(len(extra), 60 if quick else 2500)):
+        cl = r.choice(one)
+        cases.append(dict(name='random:' + name, cl=cl, text=text, shell=cl['shells'][0]))
     texts = sorted(set(c['text'] for c in cases))
     dumps = {}
     for sh in ('bash', 'fish', 'zsh', 'pwsh'):
@@ -233,8 +285,11 @@ def tie(ctx, res, label='main_run_tie'):
         script = None
         if run['rc'] == 0 and c['cl']['shells'] == ['bash'] and not c['cl']['version']:
             script = (run['stdout'] if c['cl']['dest'] == '-' else run['files'].get(c['cl']['dest'], b'')).decode('latin-1')
-            if c['cl']['dest'] == '-' and c['cl']['regex'] == '-':
-                script = None
+            for key, stage in (('regex', 'REGEXDOT'), ('dfa', 'DFADOT')):
+                # the Graphviz text precedes the script when both go to stdout
+                if c['cl']['dest'] == '-' and c['cl'][key] in ('-', 'SAME') and script is not None:
+                    dot = emitlib.script_of(st.get(stage)) or ''
+                    script = script[len(dot):] if script.startswith(dot) else None
         command = 'cmd'
         if st.get('CHECK', '').startswith('(ok '):
             command = str(sexp.parse(st['CHECK'])[1])
@@ -258,7 +313,7 @@ def tie(ctx, res, label='main_run_tie'):
             m = sexp.parse(o)
         except Exception:
             m = ['drivererror', o[:200]]
-        if m[0] == 'oracle-conflict' or (m[0] == 'err' and c['cl']['dest'] == '-' and c['cl']['regex'] == '-'):
+        if m[0] == 'oracle-conflict':
             stats['inconclusive'] += 1
             continue
         if m[0] != 'ok':
@@ -267,6 +322,7 @@ def tie(ctx, res, label='main_run_tie'):
             continue
         tr = m[1]
         problems = []
+        known = False
         # ---- exit status
         code = [int(e[1]) for e in tr if e[0] == 'exit']
         if len(code) != 1 or tr[-1][0] != 'exit':
@@ -301,6 +357,9 @@ def tie(ctx, res, label='main_run_tie'):
                 else:
                     files[str(e[1][1])] = data
         if not unknown:
+            stdout = unversion(stdout)
+            files = {k: unversion(v) for k, v in files.items()}
+            run = dict(run, stdout=unversion(run['stdout']), files={k: unversion(v) for k, v in run['files'].items()})
             if stdout != run['stdout']:
                 problems.append('stdout differs (%d bytes, model %d)' % (len(run['stdout']), len(stdout)))
             if files != run['files']:
@@ -311,7 +370,10 @@ def tie(ctx, res, label='main_run_tie'):
         want = model_messages(tr)
         if not same_messages(got, want):
             problems.append('stderr messages %s, model %s' % ([g[:3] for g in got][:5], [w[:3] for w in want][:5]))
-        key = (c['name'], 'exit%s' % run['rc'])
+        for what, cls in property_c06(c, b, run):
+            res.violations.append(report.Violation(what, dict(replay, kind='main-property'), cls=cls))
+            known = known or cls is not None
+        key = (c['name'].split(':')[0], 'exit%s' % run['rc'])
         kinds[key] = kinds.get(key, 0) + 1
         if problems:
             res.violations.append(report.Violation('tie broken (Main.run vs the complgen command): ' + '; '.join(problems[:3]),
